@@ -34,6 +34,9 @@ Proof.
   destruct l as [|a l]; [intros [] | intros [H|H]; [left; exact H | right; apply IH; exact H]].
 Qed.
 
+Lemma filter_length_le' {A} (f : A -> bool) l : List.length (filter f l) <= List.length l.
+Proof. induction l as [|a l IH]; cbn; [lia|]. destruct (f a); cbn; lia. Qed.
+
 Lemma NoDup_snoc {A} (l : list A) k : NoDup l -> ~ In k l -> NoDup (l ++ [k]).
 Proof.
   induction 1 as [|a l Ha Hl IH]; cbn; intros Hk.
@@ -724,3 +727,145 @@ Section RunComp.
     rewrite <- (scope_of_mode_of_cfg c) in *. apply cap_large_id; assumption.
   Qed.
 End RunComp.
+
+(** ** namespaces_to_ignore *)
+
+Lemma contains_char c s : contains [c] s = true <-> In c s.
+Proof.
+  unfold contains. induction s as [|y s IH]; cbn.
+  - split; [discriminate | intros []].
+  - destruct (Ascii.eqb c y) eqn:E; cbn.
+    + apply Ascii.eqb_eq in E. subst. split; auto.
+    + destruct (find_nat [c] s) eqn:F; split; intros H.
+      * right. apply IH. reflexivity.
+      * reflexivity.
+      * discriminate.
+      * destruct H as [H|H]; [subst; rewrite Ascii.eqb_refl in E; discriminate | apply IH in H; discriminate].
+Qed.
+
+Lemma slice_from_app (a r : str) : slice_from (a ++ r) (len a) = r.
+Proof.
+  unfold slice_from, norm_idx, len. rewrite app_length.
+  destruct (Z.ltb_spec (Z.of_nat (List.length a)) 0); [lia|].
+  rewrite Z.min_l by lia. rewrite Nat2Z.id. clear H.
+  induction a as [|x a IH]; cbn; [reflexivity | exact IH].
+Qed.
+
+Lemma child_of_one_spec ns p : child_of_one ns p = true <-> direct_child ns p.
+Proof.
+  unfold child_of_one, direct_child. destruct (prefixb ns p) eqn:E.
+  - apply prefixb_spec in E. destruct E as [r ->]. rewrite slice_from_app.
+    change (Str "/") with ["/"%char]. change (Str "#") with ["#"%char].
+    rewrite andb_true_iff, !negb_true_iff. split.
+    + intros [H1 H2]. exists r. split; [reflexivity|]. split; intros H; apply contains_char in H; congruence.
+    + intros [r' [H [H1 H2]]]. apply app_inv_head in H. subst r'. split.
+      * destruct (contains ["/"%char] r) eqn:C; [apply contains_char in C; contradiction | reflexivity].
+      * destruct (contains ["#"%char] r) eqn:C; [apply contains_char in C; contradiction | reflexivity].
+  - split; [discriminate|]. intros [r [H _]].
+    assert (prefixb ns p = true) by (apply prefixb_spec; exists r; exact H). congruence.
+Qed.
+
+(** the code's test is the Spec's relation *)
+Lemma child_of_ns_spec ign p : child_of_ns ign p = true <-> ignored ign p.
+Proof.
+  unfold ignored. induction ign as [|ns ign IH]; cbn.
+  - split; [discriminate | intros [ns [[] _]]].
+  - destruct (child_of_one ns p) eqn:E.
+    + split; [|reflexivity]. intros _. exists ns. split; [left; reflexivity | apply child_of_one_spec; exact E].
+    + rewrite IH. split.
+      * intros [ns' [H1 H2]]. exists ns'. auto.
+      * intros [ns' [[H1|H1] H2]]; [subst; apply child_of_one_spec in H2; congruence | exists ns'; auto].
+Qed.
+
+Lemma child_of_ns_false ign p : child_of_ns ign p = false <-> ~ ignored ign p.
+Proof.
+  rewrite <- child_of_ns_spec. destruct (child_of_ns ign p); split; congruence.
+Qed.
+
+(** [filter_ns] deletes exactly the triples whose predicate is ignored, keeping the order *)
+Lemma filter_ns_sub_sat ign g : sub_sat (fun t => ~ ignored ign (tp t)) (filter_ns ign g) g.
+Proof.
+  induction g as [|t g IH]; cbn; [constructor|]. unfold pass_filters.
+  destruct (child_of_ns ign (tp t)) eqn:E; cbn.
+  - apply ss_drop; [|exact IH]. intros H. apply H. apply child_of_ns_spec. exact E.
+  - apply ss_keep; [|exact IH]. apply child_of_ns_false. exact E.
+Qed.
+
+Lemma sub_sat_unique P g g1 g2 : sub_sat P g1 g -> sub_sat P g2 g -> g1 = g2.
+Proof.
+  intros H1. revert g2. induction H1; intros g2 H2; inversion H2; subst; try reflexivity; try contradiction.
+  - f_equal. apply IHsub_sat. assumption.
+  - apply IHsub_sat. assumption.
+Qed.
+
+Lemma filter_ns_In ign g t : In t (filter_ns ign g) <-> In t g /\ ~ ignored ign (tp t).
+Proof.
+  induction g as [|x g IH]; cbn; [tauto|]. unfold pass_filters.
+  destruct (child_of_ns ign (tp x)) eqn:E; cbn; rewrite IH.
+  - apply child_of_ns_spec in E. split; [tauto|]. intros [[H|H] H1]; [subst; contradiction | tauto].
+  - apply child_of_ns_false in E. split; [intros [H|H]; [subst; tauto | tauto] | tauto].
+Qed.
+
+(** a predicate one level deeper is not a direct child: it is kept *)
+Lemma deeper_not_child ns r : In "/"%char r \/ In "#"%char r -> ~ direct_child ns (ns ++ r).
+Proof.
+  intros H [r' [E [H1 H2]]]. apply app_inv_head in E. subst r'. tauto.
+Qed.
+
+(** nested namespaces: a direct child of the inner namespace is not a child of the outer one *)
+Lemma nested_inner_only ns mid local :
+  In "/"%char mid \/ In "#"%char mid -> ~ In "/"%char local -> ~ In "#"%char local ->
+  direct_child (ns ++ mid) (ns ++ mid ++ local) /\ ~ direct_child ns (ns ++ mid ++ local).
+Proof.
+  intros Hm H1 H2. split.
+  - exists local. rewrite app_assoc. auto.
+  - apply deeper_not_child. rewrite !in_app_iff. tauto.
+Qed.
+
+(** the instantiation property inside an ignored namespace: the feature pass
+    sees no typing triple any more, the instance pass still sees them all *)
+Lemma tau_ignored_no_tau_feature ign tau g t :
+  ignored ign tau -> In t (filter_ns ign g) -> tp t <> tau.
+Proof. intros Hi Ht E. apply filter_ns_In in Ht. subst tau. tauto. Qed.
+
+Section RunIgn.
+  Variable fa : FreqAlg.
+
+  Lemma run_ign_is_deletion c ign thr g :
+    exists g', sub_sat (fun t => ~ ignored ign (tp t)) g' g /\
+               (forall g'', sub_sat (fun t => ~ ignored ign (tp t)) g'' g -> g'' = g') /\
+               run_shexc_ign fa c ign thr g = run_shexc2 fa c thr g g'.
+  Proof.
+    exists (filter_ns ign g). split; [apply filter_ns_sub_sat|]. split; [|reflexivity].
+    intros g'' H. apply (sub_sat_unique _ _ _ _ H (filter_ns_sub_sat ign g)).
+  Qed.
+
+  Lemma run_ign_nil c thr g : run_shexc_ign fa c [] thr g = run_shexc fa c thr g.
+  Proof.
+    unfold run_shexc_ign. replace (filter_ns [] g) with g; [reflexivity|].
+    induction g as [|t g IH]; cbn; [reflexivity | f_equal; exact IH].
+  Qed.
+End RunIgn.
+
+(** ** graph-level corollaries (duplicate-free graphs whose node strings identify the nodes) *)
+
+Lemma cap_firstn_graph tau m k g I : (0 < k)%Z -> NoDup g -> ids_faithful g ->
+  track tau m k g = inl I ->
+  forall c,
+    (forall i, In c (cls I i) <-> In i (first_k_instances tau (scope_of m) (Z.to_nat k) g c)) /\
+    Permutation (inst_of I c) (first_k_instances tau (scope_of m) (Z.to_nat k) g c) /\
+    List.length (inst_of I c) = Nat.min (Z.to_nat k) (List.length (class_subjects tau (scope_of m) g c)).
+Proof. intros Hk Hnd Hf. apply cap_firstn; [exact Hk | apply memberships_NoDup; assumption]. Qed.
+
+Lemma cap_is_restriction_graph tau m k g z : (0 < k)%Z -> (z <= 0)%Z -> NoDup g -> ids_faithful g -> tau_ok tau g ->
+  track tau m k g = track tau m z (restrict_typing tau (scope_of m) (Z.to_nat k) g).
+Proof. intros Hk Hz Hnd Hf. apply cap_is_restriction; [exact Hk | exact Hz | apply memberships_NoDup; assumption]. Qed.
+
+Section RunCompGraph.
+  Variable fa : FreqAlg.
+  Lemma run_cap_is_restriction_graph c thr g z : (0 < r_cap c)%Z -> (z <= 0)%Z ->
+    NoDup g -> ids_faithful g -> tau_ok (r_tau c) g ->
+    run_shexc fa c thr g =
+    run_shexc2 fa (with_cap c z) thr (restrict_typing (r_tau c) (r_targets c) (Z.to_nat (r_cap c)) g) g.
+  Proof. intros Hk Hz Hnd Hf. apply run_cap_is_restriction; [exact Hk | exact Hz | apply memberships_NoDup; assumption]. Qed.
+End RunCompGraph.
